@@ -9,6 +9,7 @@ import subprocess
 
 from . import cpp
 from .common import SPEC, MachineryError, run_parallel, run_tlc
+from .scalar_rt import max_procs
 
 ENUM_DIR = os.path.join(SPEC, "enum")
 
@@ -17,10 +18,11 @@ LANDMARKS = [-2**63, -2**31 - 1, -2**31, -129, -128, -1, 0, 1, 127, 128, 255, 25
              2**32 - 1, 2**32, 2**63 - 1, 2**63, 2**64 - 1]
 
 
-def generate(scratch_dir, n_random, seed, drive_matrix_every):
+def generate(scratch_dir, n_random, seed, drive_matrix_every, fields_every=1):
     """Run EnumGen.tla; returns (cases, summary, TLCResult)."""
     res = run_tlc(os.path.join(ENUM_DIR, "EnumGen.tla"), os.path.join(ENUM_DIR, "EnumGen.cfg"), workers=1,
-                  env={"GEN_N": n_random, "GEN_SEED": seed % 1000, "GEN_DRIVE_MATRIX_EVERY": drive_matrix_every},
+                  env={"GEN_N": n_random, "GEN_SEED": seed % 1000, "GEN_DRIVE_MATRIX_EVERY": drive_matrix_every,
+                       "GEN_FIELDS_EVERY": fields_every},
                   timeout=1800, heap="2g", metadir=os.path.join(scratch_dir, "meta-enumgen"))
     if not res.clean:
         raise MachineryError("EnumGen failed:\n" + res.error_trace_tail(60))
@@ -74,7 +76,7 @@ def render_module(ns, module_cases, cases, with_holders):
         start = len(lines) + 1
         lines += render_enum(c, tn)
         spans[c["id"]] = (start, len(lines))
-        if with_holders:
+        if with_holders and c["widths"]:
             lines.append("bits Fields%s:" % tn)
             for wi, w in enumerate(c["widths"]):
                 lines.append("  0 [+%d]  %s  f%d" % (w, tn, wi))
@@ -112,7 +114,7 @@ def compile_many(texts, nproc=8):
     if not items:
         return {}
     ctx = multiprocessing.get_context("fork")
-    with ctx.Pool(min(nproc, len(items))) as pool:
+    with ctx.Pool(min(nproc, len(items), max_procs())) as pool:
         res = pool.map(_compile_job, items, chunksize=1)
     return {key: (header, errs, exc) for key, header, errs, exc in res}
 
@@ -316,7 +318,7 @@ def drive(cases, verdict, scratch_dir, per_tu=45):
             return None, "driver exited with %d: %s" % (rc, se[-1500:])
         return so, None
 
-    outs = run_parallel([lambda cc=cc: job(cc) for cc, _ in jobs])
+    outs = run_parallel([lambda cc=cc: job(cc) for cc, _ in jobs], nproc=max_procs())
     obs, build_failures = {}, []
     for (cc, cs), (so, err) in zip(jobs, outs):
         if so is None:
@@ -377,7 +379,7 @@ def check(records, scratch_dir, nparts):
                        env={"CASES_FILE": p}, timeout=3000, heap="2g",
                        metadir=os.path.join(scratch_dir, "meta-enumcheck-%d" % i))
 
-    results = run_parallel([lambda i=i, p=p: job(i, p) for i, p in enumerate(files)])
+    results = run_parallel([lambda i=i, p=p: job(i, p) for i, p in enumerate(files)], nproc=max_procs())
     mism, summ = [], []
     for p, res in zip(files, results):
         if not res.clean:
